@@ -35,7 +35,7 @@ def bump (ops : List (String × Nat)) (op : String) : List (String × Nat) :=
   | [] => [(op, 1)]
   | (o, c) :: rest => if o == op then (o, c + 1) :: rest else (o, c) :: bump rest op
 
-def codecOps : List String := ["encode", "int_encode", "encoded_size", "max_encoded_len", "decode", "to_le_bytes", "to_be_bytes",
+def codecOps : List String := ["encode", "encode_using", "encode_to", "encode_ref", "encode_pair", "encode_size_hint_ok", "int_encode", "encoded_size", "max_encoded_len", "decode", "to_le_bytes", "to_be_bytes",
   "to_ne_bytes", "from_le_bytes", "from_be_bytes", "from_ne_bytes", "bits_roundtrip", "wrapping_bits"]
 
 def isConvOp (op : String) : Bool :=
